@@ -441,9 +441,9 @@ pub fn run_elf_load(args: &Args) -> Result<()> {
                     }
                 }
                 let mut rng = Rng::new(seed ^ hash_str("elf"), k as u64);
-                let big = thorough && k % 37 == 3; // ~100 files with segments up to 64 KiB, spread over all threads
+                let big = thorough && k % 61 == 3; // ~65 files with segments up to 16 KiB, spread over all threads
                 let o = GenOpts {
-                    max_seg: if big { 65536 } else if thorough { 2048 } else { 512 },
+                    max_seg: if big { 16384 } else if thorough { 2048 } else { 512 },
                     max_got: if thorough { 64 } else { 16 },
                     max_syms: if thorough { 200 } else { 24 },
                     max_words: if thorough { 32 } else { 10 },
@@ -468,9 +468,16 @@ pub fn run_elf_load(args: &Args) -> Result<()> {
                 while i < dram.len() {
                     if dram[i] != 0 {
                         let st = i;
-                        while i < dram.len() && dram[i] != 0 {
+                        // a run ends where 512 zero bytes follow (zero bytes inside a run are listed: the specification
+                        // looks addresses up run by run, so few long runs are validated much faster than many short ones)
+                        let mut last = i;
+                        while i < dram.len() && i - last <= 512 {
+                            if dram[i] != 0 {
+                                last = i;
+                            }
                             i += 1;
                         }
+                        i = last + 1;
                         if !first {
                             runs.push(',');
                         }
